@@ -184,7 +184,14 @@ func c13(e *Env) {
 		var b bytes.Buffer
 		err, p := mon.Call(func() error { return codec.WriteFixedString(&b, s, n) })
 		want := ref.FixWrite(s, n, ' ', false)
-		got, err2 := codec.ReadFixedString(bytes.NewBuffer(append([]byte(nil), want...)), n)
+		var got string
+		err2, pr := mon.Call(func() (e error) {
+			got, e = codec.ReadFixedString(bytes.NewBuffer(append([]byte(nil), want...)), n)
+			return
+		})
+		if pr != nil {
+			err2 = fmt.Errorf("panic: %v", pr.Value)
+		}
 		wrappers++
 		if p != nil || err != nil || err2 != nil || !bytes.Equal(b.Bytes(), want) || got != ref.FixRead(want, ' ', false) {
 			r.Violate("C13/default-wrapper", "C13/default-wrapper", map[string]any{"width": n, "text": val.Hex([]byte(s), 64), "written": val.Hex(b.Bytes(), 64), "model": val.Hex(want, 64), "read": got})
@@ -207,8 +214,21 @@ func c13(e *Env) {
 		var b1, b2 bytes.Buffer
 		e1, p1 := mon.Call(func() error { return codec.WriteFixedStringListWithPadding[uint16](&b1, vs, n, rune(pad), left) })
 		e2, p2 := mon.Call(func() error { return codec.WriteFixedStringListWithPaddingLE[uint16](&b2, vs, n, rune(pad), left) })
-		r1, e3 := codec.ReadFixedStringListTrimPadding[uint16](bytes.NewBuffer(append([]byte(nil), wantL...)), n, rune(pad), left)
-		r2, e4 := codec.ReadFixedStringListTrimPaddingLE[uint16](bytes.NewBuffer(append([]byte(nil), wantLE...)), n, rune(pad), left)
+		var r1, r2 []string
+		e3, p3 := mon.Call(func() (e error) {
+			r1, e = codec.ReadFixedStringListTrimPadding[uint16](bytes.NewBuffer(append([]byte(nil), wantL...)), n, rune(pad), left)
+			return
+		})
+		e4, p4 := mon.Call(func() (e error) {
+			r2, e = codec.ReadFixedStringListTrimPaddingLE[uint16](bytes.NewBuffer(append([]byte(nil), wantLE...)), n, rune(pad), left)
+			return
+		})
+		if p3 != nil {
+			e3 = fmt.Errorf("panic: %v", p3.Value)
+		}
+		if p4 != nil {
+			e4 = fmt.Errorf("panic: %v", p4.Value)
+		}
 		wrappers++
 		if p1 != nil || p2 != nil || e1 != nil || e2 != nil || e3 != nil || e4 != nil || !bytes.Equal(b1.Bytes(), wantL) || !bytes.Equal(b2.Bytes(), wantLE) || val.Equal(r1, wantRead) != "" || val.Equal(r2, wantRead) != "" {
 			r.Violate(fmt.Sprintf("C13/list-variant/pad>=0x80:%v", pad >= 0x80), "C13/list-variant", map[string]any{"width": n, "pad": fmt.Sprintf("%#02x", pad), "side": sideName(left), "elements": k, "written": val.Hex(b1.Bytes(), 64), "model": val.Hex(wantL, 64), "read": fmt.Sprint(r1), "model_read": fmt.Sprint(wantRead)})
